@@ -178,7 +178,11 @@ int xmpp_stanza_release(xmpp_stanza_t *stanza)
         while (child) {
             tchild = child;
             child = child->next;
+            /* a child may outlive us when somebody else holds a reference:
+             * detach it completely, it must not keep pointers to freed memory */
             tchild->next = NULL;
+            tchild->prev = NULL;
+            tchild->parent = NULL;
             xmpp_stanza_release(tchild);
         }
 
